@@ -62,6 +62,36 @@ func TestVerifC13_ProgressAndBounds(t *testing.T) {
 	rapid.Check(t, func(t *rapid.T) { vfRunMachine(t, "C13") })
 }
 
+// vfSigRetryCountReset: signature of the finding "a catch-up/recent job that reports a height as
+// failed restarts the height's retry attempt count from 1" (see TestVerifC13_RetryCountWitness).
+const vfSigRetryCountReset = "C13:retry-count-reset-by-catchup-job-failure"
+
+// TestVerifC13_RetryCountWitness is the fixed witness of vfSigRetryCountReset at the level of the
+// coordinator state: height 3 has failed twice (as a checkpoint hands it over), the resumed
+// catch-up job [3..4] fails it a third time. B4: the attempt count must not go down.
+func TestVerifC13_RetryCountWitness(t *testing.T) {
+	defer vk.Flush()
+	_ = logging.SetLogLevel("das", "fatal")
+	s := newCoordinatorState(Parameters{SamplingRange: 2, ConcurrencyLimit: 1})
+	s.resumeFromCheckpoint(checkpoint{SampleFrom: 5, NetworkHead: 4, Failed: map[uint64]int{3: 2},
+		Workers: []workerCheckpoint{{From: 3, To: 4, JobType: catchupJob}}})
+	j := s.newJob(catchupJob, 3, 4)
+	s.putInProgress(j.id, func() workerState { return workerState{} })
+	before := s.failed[3].count
+	s.handleResult(result{job: j, failed: map[uint64]int{3: 1}})
+	after := s.failed[3].count
+	vk.Record("witness retry-count-reset", []string{"witness"}, true, nil)
+	if after >= before {
+		return
+	}
+	what := fmt.Sprintf("C13/B4 retry attempt count of height 3 decreased from %d to %d: checkpoint {Failed:{3:x2} Workers:[catchup[3..4]]} resumed, the catch-up job fails height 3 again", before, after)
+	if vk.KnownOpen(vfSigRetryCountReset) {
+		vk.FindingPresent(vfSigRetryCountReset, what)
+		return
+	}
+	t.Fatalf("%s", what)
+}
+
 // ---------------------------------------------------------------------------------------------
 
 type vfObs struct {
@@ -682,12 +712,34 @@ func (m *vfMachine) checkC13(t *rapid.T, o *vfObs, t1 time.Time) {
 			m.fail(t, "C13/B2 WaitCatchUp returned %v although nothing queued/in flight/failed=%v: %s", o.waitErr, nothingLeft, o)
 		}
 	}
+	// attempt count of a height = the larger of its entries in failed and inRetry (a height can be in
+	// both: retry job in flight while another job reported it failed again)
+	count := map[uint64]int{}
+	for h, e := range o.failed {
+		count[h] = e.count
+	}
+	for h, e := range o.inRetry {
+		if e.count > count[h] {
+			count[h] = e.count
+		}
+	}
 	if m.on("B4") {
+		for _, h := range vfKeys(count) {
+			if c, ok := m.lastCount[h]; ok && count[h] < c {
+				if count[h] == 1 && vk.KnownOpen(vfSigRetryCountReset) {
+					// shape of the known finding: a catch-up/recent job reported the height failed and
+					// the count started again from 1
+					vk.Excluded(vfSigRetryCountReset)
+				} else {
+					m.fail(t, "C13/B4 retry attempt count of height %d decreased from %d to %d without a successful sample in between: %s", h, c, count[h], o)
+				}
+			}
+			if count[h] > m.boMax {
+				m.labels["backoff-saturated"] = true
+			}
+		}
 		for _, h := range vfKeys(o.failed) {
 			e := o.failed[h]
-			if c, ok := m.lastCount[h]; ok && e.count < c {
-				m.fail(t, "C13/B4 retry attempt count of height %d decreased from %d to %d without a successful sample in between: %s", h, c, e.count, o)
-			}
 			if prev, seen := m.sawEntry[h]; !seen || prev != e {
 				// a new back-off entry: it was written during this step, at some instant in [stepT0, t1]
 				written := e.after.Add(-m.interval(e.count))
@@ -702,20 +754,18 @@ func (m *vfMachine) checkC13(t *rapid.T, o *vfObs, t1 time.Time) {
 				}
 			}
 		}
-		for _, h := range vfKeys(o.inRetry) {
-			if c, ok := m.lastCount[h]; ok && o.inRetry[h].count < c {
-				m.fail(t, "C13/B4 retry attempt count of height %d (being retried) decreased from %d to %d: %s", h, c, o.inRetry[h].count, o)
-			}
-		}
 	}
 	// bookkeeping for B4 (always, so that VERIF_DAS_ONLY does not change the model)
+	for h := range m.sawEntry {
+		if _, ok := o.failed[h]; !ok {
+			delete(m.sawEntry, h)
+		}
+	}
 	for h, e := range o.failed {
-		m.lastCount[h] = e.count
 		m.sawEntry[h] = e
 	}
-	for h, e := range o.inRetry {
-		m.lastCount[h] = e.count
-		delete(m.sawEntry, h)
+	for h, c := range count {
+		m.lastCount[h] = c
 	}
 	if m.on("B5") {
 		if o.stats.NetworkHead != m.netHead {
@@ -815,6 +865,8 @@ func (m *vfMachine) actNewHead(t *rapid.T) {
 
 var vfOutcomes = []string{"ok", "ok", "ok", "ok", "ok", "ok", "error", "error", "deadline", "outside-window", "foreign-cancel"}
 
+var vfOutcomesAfterFailure = []string{"ok", "ok", "error", "error", "error", "deadline", "foreign-cancel"}
+
 func (m *vfMachine) actRelease(t *rapid.T) {
 	m.begin(t)
 	parked := m.da.snapshot()
@@ -822,7 +874,11 @@ func (m *vfMachine) actRelease(t *rapid.T) {
 		t.Skip("nothing in flight")
 	}
 	c := parked[rapid.IntRange(0, len(parked)-1).Draw(t, "call")]
-	outcome := rapid.SampledFrom(vfOutcomes).Draw(t, "outcome")
+	outs := vfOutcomes
+	if m.errEver[c.height] && !m.sampled(c.height) {
+		outs = vfOutcomesAfterFailure // heights that failed tend to fail again: drives the back-off table
+	}
+	outcome := rapid.SampledFrom(outs).Draw(t, "outcome")
 	m.act(t, "release(h=%d, %s)", c.height, outcome)
 	m.release(t, c, outcome)
 }
